@@ -820,7 +820,64 @@ def check_basis_immutable(case, ctx):
     ctx.nontrivial(True)
 
 
+# ----------------------------------------------------------------------------- helper operands (lists / arrays handed to utilities)
+@st.composite
+def helper_case(draw, tier):
+    k = draw(st.integers(2, 4))
+    names = draw(st.permutations(list(range(k))))
+    offset = draw(st.sampled_from([0, 0, 3, -2]))
+    gap = draw(st.sampled_from([1, 1, 2]))
+    return {"names": [offset + gap * int(v) for v in names], "sizes": [draw(st.sampled_from([2, 2, 3])) for _ in range(k)]}
+
+
+def check_helper_operands(case, ctx):
+    """matrix_util.calc_permutation_matrix / convert_list_by_permutation_matrix: the answer depends on the values of the
+    name and size sequences only (list, tuple-free array forms agree), the sequences handed in are left as they were, and
+    asking again gives the same answer."""
+    from quara.utils import matrix_util as mu
+
+    names, sizes = list(case["names"]), list(case["sizes"])
+    ctx.label(f"subsystems:{len(names)}", "sorted" if names == sorted(names) else "unsorted")
+    ref = mu.calc_permutation_matrix(list(names), list(sizes))
+    ref = np.array(ref, copy=True)
+    # independent statement: the permutation maps the Kronecker product in argument order to the one in ascending name order
+    vecs = [np.arange(1, s + 1, dtype=float) + 0.25 * i for i, s in enumerate(sizes)]
+    arg_order = vecs[0]
+    for v in vecs[1:]:
+        arg_order = np.kron(arg_order, v)
+    asc = None
+    for i in np.argsort(names):
+        asc = vecs[i] if asc is None else np.kron(asc, vecs[i])
+    ctx.close(ref @ arg_order, asc, 1e-12, "permutation_matrix_sorts_kron_factors")
+    for form in ("list", "int64_array", "tuple_sizes"):
+        if form == "list":
+            a, b = list(names), list(sizes)
+        elif form == "int64_array":
+            a, b = np.array(names, dtype=np.int64), np.array(sizes, dtype=np.int64)
+        else:
+            a, b = list(names), tuple(sizes)
+        keep_a, keep_b = list(a), list(b)
+        try:
+            p1 = mu.calc_permutation_matrix(a, b)
+            p2 = mu.calc_permutation_matrix(a, b)
+        except TypeError:
+            ctx.label("form_rejected:" + form)  # tuples are not promised
+            continue
+        ctx.check(list(a) == keep_a and list(b) == keep_b, "helper_operands_unchanged:" + form,
+                  lambda: f"names {keep_a} -> {list(a)}, sizes {keep_b} -> {list(b)}")
+        ctx.equal(np.asarray(p1), ref, "helper_same_answer_for_same_values:" + form)
+        ctx.equal(np.asarray(p2), ref, "helper_repeat_call_same_answer:" + form)
+    ctx.nontrivial(names != sorted(names) and len(set(sizes)) > 1)
+
+
 FACETS = {
+    "helper_operands": {
+        "strategy": helper_case,
+        "check": check_helper_operands,
+        "budget": {"quick": {"examples": 300, "shards": 2}, "thorough": {"examples": 4000, "shards": 8}},
+        "nontrivial": "names not in ascending order and unequal subsystem sizes",
+        "min_nontrivial": 20,
+    },
     "object_pool": {
         "strategy": program_case,
         "check": check_program,
